@@ -20,7 +20,10 @@ def main():
     with open(path) as f:
         rep = json.load(f)
     prop = rep["property"]
-    target = PROPS[prop]["target"]
+    target = rep.get("target") or PROPS[prop]["target"]
+    if target not in simdrv.buildmod.TARGETS:
+        print("INFRA: unknown harness %s" % target)
+        return 2
     ok, _ = simdrv.buildmod.build([target])
     if not ok:
         print("INFRA: build failed")
